@@ -79,7 +79,8 @@ func checkC12(c C12Case) Result {
 					}
 					rc.cur = cl.String()
 					rc.check("hover.Range", p.Path, hd.Range)
-					if !(hd.Range.Start.Byte <= off && off <= hd.Range.End.Byte) && hd.Range.Filename == f.Name {
+					// (hcl ranges are half-open: a cursor at the end of a range is behind it, not in it)
+					if !(hd.Range.Start.Byte <= off && off < hd.Range.End.Byte) && hd.Range.Filename == f.Name {
 						if tainted || fi.badKeys[rkey(hd.Range)] {
 							r.Exclude("upstream-range")
 						} else {
